@@ -5,6 +5,8 @@ CONSTANTS MaxReconnects = 3
           MaxPends = 1
           MaxRaces = 2
           MaxTicks = 1
+          MaxFnfs = 0
+          MaxBlocks = 0
           Firsts = {"reconnect", "close"}
           Js = {0, 1, 2, 3, 4, 5, 6, 7, 8, 9, 10, 11, 12, 14, 20}
 INVARIANT TypeOK
@@ -14,4 +16,7 @@ INVARIANT WaitsOnlyOnDeadConnection
 INVARIANT Accounted
 INVARIANT NothingPendingOnDeadConnection
 INVARIANT ClosedStaysClosed
+INVARIANT FnfAccounted
+INVARIANT NothingUnsentOnDeadConnection
+INVARIANT FnfWaitsOnlyOnDeadConnection
 INVARIANT AllClosedAfterClose
